@@ -84,29 +84,33 @@ GoodLocs == {l \in Locs : LocDomain(l)}
 PlainLoc == [NoLoc EXCEPT !.path = <<47, 97>>]
 RCase(f, k, l, vm, rc) == [op |-> "redirect", fn |-> f, code |-> k, loc |-> l, env |-> NoEnv, via |-> vm[1], method |-> vm[2], rcls |-> rc]
 \* RequestRedirect has one code and no Response argument; redirect() returns a response (no get_response forms); a custom
-\* Response class is tried with 302; quick: the other codes with one plain target only
-RedirectUniverse ==
-  {RCase("rr", 308, l, vm, FALSE) : l \in GoodLocs, vm \in RVia}
-  \cup {RCase("redirect", k, l, <<"call", m>>, rc) : k \in {302, 308}, l \in GoodLocs, m \in {"GET", "HEAD", "POST"}, rc \in {FALSE}}
-  \cup {RCase("redirect", 302, l, <<"call", m>>, TRUE) : l \in GoodLocs, m \in {"GET", "HEAD"}}
-  \cup {RCase("redirect", k, l, <<"call", m>>, FALSE) : k \in RedirCodes \ {302, 308}, l \in (IF Quick THEN {PlainLoc} ELSE GoodLocs),
-                                                      m \in (IF Quick THEN {"GET"} ELSE {"GET", "HEAD"})}
+\* Response class is tried with 302; quick: the other codes with one plain target only.  One seed per group.
+RedirectGroups == {"rr", "r302", "r308", "rcls", "rother"}
+RedirectCasesOf(g) ==
+  CASE g = "rr" -> {RCase("rr", 308, l, vm, FALSE) : l \in GoodLocs, vm \in RVia}
+    [] g = "r302" -> {RCase("redirect", 302, l, <<"call", m>>, FALSE) : l \in GoodLocs, m \in {"GET", "HEAD", "POST"}}
+    [] g = "r308" -> {RCase("redirect", 308, l, <<"call", m>>, FALSE) : l \in GoodLocs, m \in {"GET", "HEAD", "POST"}}
+    [] g = "rcls" -> {RCase("redirect", 302, l, <<"call", m>>, TRUE) : l \in GoodLocs, m \in {"GET", "HEAD"}}
+    [] g = "rother" -> {RCase("redirect", k, l, <<"call", m>>, FALSE) : k \in RedirCodes \ {302, 308}, l \in (IF Quick THEN {PlainLoc} ELSE GoodLocs),
+                                                                      m \in (IF Quick THEN {"GET"} ELSE {"GET", "HEAD"})}
 
 \* ---- append_slash_redirect: every PATH_INFO of <= MaxPath bytes over an alphabet with the delimiters of a URL ------
 SlashAlpha == IF Mini THEN {47, 97, 58, 63, 195, 188} ELSE IF Quick THEN {47, 97, 58, 63, 37, 195, 188, 52} ELSE {47, 97, 58, 63, 35, 37, 195, 188, 52, 49, 32, 43, 10}
 MaxPath == IF Mini THEN 3 ELSE IF Quick THEN 4 ELSE 5
 RECURSIVE SeqsTo(_, _)
-SeqsTo(S, n) == IF n = 0 THEN {<<>>} ELSE SeqsLen(S, n) \cup SeqsTo(S, n - 1)          \* (UNION is quadratic in TLC)
-SlashPaths == {<<47>> \o b : b \in {x \in SeqsTo(SlashAlpha, MaxPath - 1) : x # <<>> /\ x[Len(x)] # 47}}
-SlashPathsOK == {p \in SlashPaths : SlashDomain([script |-> <<>>, path |-> p, qs |-> <<>>])}
+SeqsTo(S, n) == IF n = 0 THEN {<<>>} ELSE SeqsLen(S, n) \cup SeqsTo(S, n - 1)
 SCase(k, sc, p, q, m) == [op |-> "redirect", fn |-> "slash", code |-> k, loc |-> NoLoc, env |-> [script |-> sc, path |-> p, qs |-> q],
                           via |-> "call", method |-> m, rcls |-> FALSE]
 Q_ONE == <<113, 61, 49, 38, 114, 61, 37, 67, 51>>                                     \* q=1&r=%C3
-\* every path with the plain call; the short paths also with a query string, another code, HEAD, a SCRIPT_NAME
-SlashUniverse ==
-  {SCase(308, <<>>, p, <<>>, "GET") : p \in SlashPathsOK}
-  \cup {SCase(308, <<>>, p, Q_ONE, "GET") : p \in SlashPathsOK}
-  \cup {SCase(k, sc, p, <<>>, m) : k \in {308, 301}, sc \in {<<>>, <<47, 97, 112, 112>>}, p \in {x \in SlashPathsOK : Len(x) <= 3}, m \in {"GET", "HEAD"}}
+\* One seed per first byte x after the leading slash: the paths "/" x b of the domain (big sets are never united: set union
+\* is quadratic in TLC).  Every path with the plain call and (quick: the short ones) with a query string; the short paths also
+\* with another code, HEAD and a SCRIPT_NAME.
+SlashPathsOf(x) == {p \in {<<47, x>> \o b : b \in SeqsTo(SlashAlpha, MaxPath - 2)} :
+                    SlashDomain([script |-> <<>>, path |-> p, qs |-> <<>>])}
+SlashPlain(x) == {SCase(308, <<>>, p, q, "GET") : p \in SlashPathsOf(x), q \in (IF Quick THEN {<<>>} ELSE {<<>>, Q_ONE})}
+                 \cup {SCase(308, <<>>, p, Q_ONE, "GET") : p \in {y \in SlashPathsOf(x) : Quick /\ Len(y) <= 3}}
+SlashShort(x) == {SCase(k, sc, p, <<>>, m) : k \in {308, 301}, sc \in {<<>>, <<47, 97, 112, 112>>}, p \in {y \in SlashPathsOf(x) : Len(y) <= 3},
+                                               m \in {"GET", "HEAD"}} \ {SCase(308, <<>>, p, <<>>, "GET") : p \in SlashPathsOf(x)}
 
 \* ---- abort ------------------------------------------------------------------------------------------------------------
 RegSeq == LET codes == {p[1] : p \in Registry}
@@ -115,31 +119,30 @@ RegSeq == LET codes == {p[1] : p \in Registry}
                           <<[code |-> m, cls |-> RegLookup(Registry, m)]>> \o Build(S \ {m})
           IN Build(codes)
 AbCodes == {p[1] : p \in Registry} \cup {0, 1, 200, 308, 402, 499, 600}
-Aborters == {[k |-> "default", map |-> <<>>], [k |-> "mapping", map |-> <<[code |-> 1, cls |-> "NotFound"]>>],
-             [k |-> "extra", map |-> <<[code |-> 1, cls |-> "NotFound"]>>],
-             [k |-> "extra", map |-> <<[code |-> 402, cls |-> "PaymentRequired"], [code |-> 404, cls |-> "Gone"]>>],
-             [k |-> "mapping", map |-> <<>>]}
-AbortUniverse ==
+Aborters == <<[k |-> "default", map |-> <<>>], [k |-> "mapping", map |-> <<[code |-> 1, cls |-> "NotFound"]>>],
+              [k |-> "extra", map |-> <<[code |-> 1, cls |-> "NotFound"]>>],
+              [k |-> "extra", map |-> <<[code |-> 402, cls |-> "PaymentRequired"], [code |-> 404, cls |-> "Gone"]>>],
+              [k |-> "mapping", map |-> <<>>]>>
+AbortCasesOf(a) ==
   {[op |-> "abort", ab |-> a, reg |-> RegSeq, what |-> "code", code |-> k, fwd |-> f, dtext |-> IF f = "none" THEN <<>> ELSE D_HTML] :
-     a \in Aborters, k \in AbCodes, f \in {"none", "pos", "kw"}}
-  \cup {[op |-> "abort", ab |-> a, reg |-> RegSeq, what |-> "response", code |-> 0, fwd |-> "none", dtext |-> <<>>] : a \in Aborters}
+     k \in AbCodes, f \in {"none", "pos", "kw"}}
+  \cup {[op |-> "abort", ab |-> a, reg |-> RegSeq, what |-> "response", code |-> 0, fwd |-> "none", dtext |-> <<>>]}
 
 \* Seed states whose successors are the cases: TLC's workers then share the table (all initial states are generated by one
-\* thread).  Render: one seed per class (the cases of a class are generated from the seed, no big set is ever built);
-\* the other tables: NParts seeds, the part of a case is a key modulo NParts.
-NParts == 12
-PartKey(c) == CASE c.op = "redirect" -> c.code + Len(c.loc.path) + Len(c.loc.query) + SumSeq(c.env.path) + Len(c.env.qs)
-                [] c.op = "abort" -> c.code + Len(c.ab.map)
+\* thread), and no big set of cases is ever built.  Seeds: a class (render), a group (redirect), a first byte (slash), an aborter.
 Fams == IF Family = "all" THEN {"render", "redirect", "slash", "abort"} ELSE {Family}
-Seeds == (IF "render" \in Fams THEN {[op |-> "seed", fam |-> "render", k |-> r.cls] : r \in RenderRows} ELSE {})
-         \cup {[op |-> "seed", fam |-> f, k |-> ToString(i)] : f \in Fams \ {"render"}, i \in 0..(NParts - 1)}
-PartOf(c) == ToString(PartKey(c) % NParts)
-CasesOf(seed) == CASE seed.fam = "render" -> RowCases(Row(seed.k))
-                   [] seed.fam = "redirect" -> {c \in RedirectUniverse : PartOf(c) = seed.k}
-                   [] seed.fam = "slash" -> {c \in SlashUniverse : PartOf(c) = seed.k}
-                   [] seed.fam = "abort" -> {c \in AbortUniverse : PartOf(c) = seed.k}
+Seed(f, k) == [op |-> "seed", fam |-> f, k |-> k, x |-> 0]
+Seeds == (IF "render" \in Fams THEN {Seed("render", r.cls) : r \in RenderRows} ELSE {})
+         \cup (IF "redirect" \in Fams THEN {Seed("redirect", g) : g \in RedirectGroups} ELSE {})
+         \cup (IF "slash" \in Fams THEN {[Seed("slash", "") EXCEPT !.x = x] : x \in SlashAlpha} ELSE {})
+         \cup (IF "abort" \in Fams THEN {[Seed("abort", "") EXCEPT !.x = i] : i \in 1..Len(Aborters)} ELSE {})
 Init == case \in Seeds
-Next == case.op = "seed" /\ case' \in CasesOf(case)
+Next == /\ case.op = "seed"
+        /\ \/ case.fam = "render" /\ case' \in RowCases(Row(case.k))
+           \/ case.fam = "redirect" /\ case' \in RedirectCasesOf(case.k)
+           \/ case.fam = "slash" /\ case' \in SlashPlain(case.x)
+           \/ case.fam = "slash" /\ case' \in SlashShort(case.x)
+           \/ case.fam = "abort" /\ case' \in AbortCasesOf(Aborters[case.x])
 
 Model(c) == CASE c.op = "render" -> RenderModel(c) [] c.op = "redirect" -> RedirectModel(c) [] c.op = "abort" -> AbortModel(c)
 Clause(c, o) == CASE c.op = "render" -> RenderClause(c, o) [] c.op = "redirect" -> RedirectClause(c, o) [] c.op = "abort" -> AbortClause(c, o)
